@@ -38,6 +38,7 @@ struct InGraph {
     long den = 1;              // real weight = w / den
     std::vector<InEdge> edges; // insertion order
     std::vector<std::string> extra; // trailing tokens (per-harness meaning)
+    std::string raw;                // the input line as read
 };
 
 // line format:  G <id> <n> <m> <den> (u v w)*m [extra tokens...]
@@ -65,7 +66,7 @@ inline std::vector<InGraph> read_graphs(const char *path) {
     std::string line;
     while (std::getline(in, line)) {
         InGraph g;
-        if (parse_graph(line, g)) r.push_back(g);
+        if (parse_graph(line, g)) { g.raw = line; r.push_back(g); }
     }
     return r;
 }
@@ -149,9 +150,15 @@ inline void scaled(double ret, long den, long &ri, long &frac) {
 
 // --- crash / timeout capture -----------------------------------------------------------------
 static volatile long g_current_item = -1;
+static char g_crash_ctx[3000] = "";     // raw input line of the item being processed (no quotes/backslashes), for the Crash event
+inline void set_crash_context(const std::string &line) {
+    size_t k = 0;
+    for (char c : line) { if (k + 1 >= sizeof g_crash_ctx) break; g_crash_ctx[k++] = (c == '"' || c == '\\' || (unsigned char) c < 32) ? ' ' : c; }
+    g_crash_ctx[k] = 0;
+}
 inline void fatal_handler(int sig) {
-    char buf[160];
-    int n = snprintf(buf, sizeof buf, "{\"e\":\"Crash\",\"what\":\"signal %d\",\"item\":%ld}\n", sig, (long) g_current_item);
+    char buf[3400];
+    int n = snprintf(buf, sizeof buf, "{\"e\":\"Crash\",\"what\":\"signal %d\",\"item\":%ld,\"ctx\":\"%s\"}\n", sig, (long) g_current_item, g_crash_ctx);
     if (n > 0) { ssize_t r = write(fileno(g_out), buf, (size_t) n); (void) r; }
     _exit(sig == SIGALRM ? 4 : 3);
 }
